@@ -7,6 +7,7 @@
      7 sub/c.md             8 sub/deep/d.md       9 drafts/e.md         13 sub/f.txt
     10 ln_in.md  -> a.md (symlink to a file inside)     11 ln_out.md -> a file outside the tree ("OUT")
     12 ln_dangling.md -> nothing                        ln_dir -> sub (symlink to a directory)
+    16 ln_big.md -> big.md (symlink to the oversized file)
    Settings: extinc (extend-include *.txt), excl (exclude = ["drafts/"], replacing the defaults, which contain
      node_modules/), extexcl (extend-exclude: none / deep/ / the path pattern sub/deep/), force (force-exclude), limit (files-max-size = L, else 0 = none),
      toolign (.flowmarkignore present at the root).
@@ -23,7 +24,7 @@ CONSTANTS MaxArgs, GlobFilters, WalkSkipsLinks, ForceAppliesIgnore, DoDump
 VARIABLES st, args, k, seen, result, pc
 vars == <<st, args, k, seen, result, pc>>
 
-U == [i \in 1..15 |->
+U == [i \in 1..16 |->
        CASE i = 1  -> [name |-> "a.md", dir |-> <<>>, ext |-> "md", size |-> "small", link |-> "none", to |-> 0]
          [] i = 2  -> [name |-> "b.txt", dir |-> <<>>, ext |-> "txt", size |-> "small", link |-> "none", to |-> 0]
          [] i = 3  -> [name |-> "big.md", dir |-> <<>>, ext |-> "md", size |-> "big", link |-> "none", to |-> 0]
@@ -39,9 +40,11 @@ U == [i \in 1..15 |->
          [] i = 13 -> [name |-> "f.txt", dir |-> <<"sub">>, ext |-> "txt", size |-> "small", link |-> "none", to |-> 0]
          \* a directory whose NAME looks like an included file: include patterns apply to file names, not to the directories above them
          [] i = 14 -> [name |-> "raw.dat", dir |-> <<"notes.md">>, ext |-> "dat", size |-> "small", link |-> "none", to |-> 0]
-         [] i = 15 -> [name |-> "in.md", dir |-> <<"notes.md">>, ext |-> "md", size |-> "small", link |-> "none", to |-> 0]]
-Ids == 1..15
-Args == {".", "sub", "ln_dir", "drafts", "a.md", "./a.md", "ABS/sub/../a.md", "node_modules/x.md", "big.md", "ign.md", "drafts/e.md", "*.md", "**/*.md", "sub/*"}
+         [] i = 15 -> [name |-> "in.md", dir |-> <<"notes.md">>, ext |-> "md", size |-> "small", link |-> "none", to |-> 0]
+         \* a symlink to the oversized file: the size that counts is the size of the file that would be formatted
+         [] i = 16 -> [name |-> "ln_big.md", dir |-> <<>>, ext |-> "md", size |-> "big", link |-> "file", to |-> 3]]
+Ids == 1..16
+Args == {".", "sub", "ln_dir", "drafts", "a.md", "./a.md", "ABS/sub/../a.md", "node_modules/x.md", "big.md", "ln_big.md", "ign.md", "drafts/e.md", "*.md", "**/*.md", "sub/*"}
 Settings == [extinc : BOOLEAN, excl : BOOLEAN, extexcl : {"none", "base", "path"}, force : BOOLEAN, limit : BOOLEAN, toolign : BOOLEAN]
 
 Target(i) == IF U[i].link = "none" THEN i ELSE U[i].to          \* identity after Path.resolve()
@@ -60,10 +63,10 @@ Filters(i, base) == IncludeOK(i) /\ ~InExcl(i, base) /\ ~ToolIgn(i) /\ ~TooBig(i
 
 \* ---------------- what each argument denotes ----------------
 DirOf(a) == CASE a = "." -> <<>> [] a = "sub" -> <<"sub">> [] a = "ln_dir" -> <<"sub">> [] a = "drafts" -> <<"drafts">>   \* a walk root that is itself an excluded directory name
-FileOf(a) == CASE a = "a.md" -> 1 [] a = "./a.md" -> 1 [] a = "ABS/sub/../a.md" -> 1 [] a = "node_modules/x.md" -> 6 [] a = "big.md" -> 3    \* ABS/..: absolute, not canonical (<tree>/sub/../a.md)
+FileOf(a) == CASE a = "a.md" -> 1 [] a = "./a.md" -> 1 [] a = "ABS/sub/../a.md" -> 1 [] a = "node_modules/x.md" -> 6 [] a = "big.md" -> 3 [] a = "ln_big.md" -> 16    \* ABS/..: absolute, not canonical (<tree>/sub/../a.md)
                [] a = "ign.md" -> 5 [] a = "drafts/e.md" -> 9
 IsDirArg(a) == a \in {".", "sub", "ln_dir", "drafts"}
-IsFileArg(a) == a \in {"a.md", "./a.md", "ABS/sub/../a.md", "node_modules/x.md", "big.md", "ign.md", "drafts/e.md"}
+IsFileArg(a) == a \in {"a.md", "./a.md", "ABS/sub/../a.md", "node_modules/x.md", "big.md", "ln_big.md", "ign.md", "drafts/e.md"}
 IsGlobArg(a) == a \in {"*.md", "**/*.md", "sub/*"}
 GlobMatch(a) == CASE a = "*.md" -> {i \in Ids : U[i].dir = <<>> /\ U[i].ext = "md" /\ U[i].link # "dangling"}
                   [] a = "**/*.md" -> {i \in Ids : U[i].ext = "md" /\ U[i].link # "dangling"}
@@ -74,9 +77,9 @@ Under(d) == {i \in Ids : IsPrefix(d, U[i].dir)}
 MustOf(a) == IF IsDirArg(a) THEN {i \in Under(DirOf(a)) : U[i].link = "none" /\ Filters(i, DirOf(a))}
              ELSE IF IsGlobArg(a) THEN {i \in GlobMatch(a) : U[i].link = "none" /\ Filters(i, <<>>)}
              ELSE LET i == FileOf(a) IN
-                  IF ~TooBig(i) /\ (~st.force \/ (~InExcl(i, <<>>) /\ ~ToolIgn(i))) THEN {i} ELSE {}
+                  IF ~TooBig(i) /\ (~st.force \/ (~InExcl(i, <<>>) /\ ~ToolIgn(i))) THEN {Target(i)} ELSE {}
 \* free choices the property leaves open: symlinks matched by a glob (they are named by the pattern, not traversed)
-MayOf(a) == IF IsGlobArg(a) THEN {Target(i) : i \in {j \in GlobMatch(a) : U[j].link = "file" /\ IncludeOK(j)}} ELSE {}
+MayOf(a) == IF IsGlobArg(a) THEN {Target(i) : i \in {j \in GlobMatch(a) : U[j].link = "file" /\ IncludeOK(j) /\ ~TooBig(j)}} ELSE {}
 Must == UNION {MustOf(args[n]) : n \in 1..Len(args)}
 May == UNION {MayOf(args[n]) : n \in 1..Len(args)}
 
